@@ -10,6 +10,11 @@ CHECKS = {
     text="Exhaustive small-scope model-based testing: TLC enumerates every identifier up to length 4 (quick) / 7 (thorough) over one representative per character class, computes serde's expected name for 8 rules + an unknown rule in field and variant position from the TLA+ transcription of serde_derive's case.rs, and every case is executed on the real parser. The transcription itself is cross-checked on the same identifiers against the vendored original case.rs. In the other direction real renames of ~1500 dictionary identifiers and random long identifiers are recorded and judged by TLC. The rename code is a finite-state transducer with lookback 1, so class-representative enumeration to length 7 covers every transition sequence it can take.",
     note="Trusted: TLC; the TLA+ transcription of case.rs (cross-checked against the vendored serde_derive 1.0.214 source on every case); Id.renamed in ParsedData is the name every backend prints. Known finding (snapshot-pinned): field-position snake/kebab family splits words at uppercase letters.",
     design_ref="6/C16"),
+ "C18": dict(
+    technique="TLA+ spec of the safe-integer ranges over limb arithmetic (SafeInt.tla) with the limb<->integer bridge lemma discharged by Apalache; TLC enumerates all boundary neighbourhoods and each value is replayed through every real U53/I54 constructor; random draws validated by TLC (Trace_C18.tla)",
+    text="TLC enumerates every value within 64 (quick) / 4096 (thorough) of each power of two 2^0..2^64 in both signs - which covers the four limits, zero, and every narrow-type boundary - and computes from SafeInt.tla what each constructor/conversion must do (accept, reject, not applicable, value preserved, order with successor). Each value is executed on the real typeshare::{U53,I54} (TryFrom, From narrow, TryFrom to narrow, serde_json integer and float-shaped literals, Display, f64 and JSON round trips, usize_from_u53_saturated, cmp/eq). Random values stratified by bit length (6k quick / 200k thorough) plus comparison pairs are judged by TLC as trace events. Apalache proves over unbounded integers that the limb predicates equal the integer predicates of the property.",
+    note="Trusted: TLC, Apalache/Z3 for the bridge lemma, decimal-string transport of 64-bit values, Rust's own `as f64` for the IEEE-754 round trip. The 10^7 random draws of the quantifier are sampled at 200k in the thorough tier (trace validation speed).",
+    design_ref="6/C18"),
 }
 
 NOT_YET = "not built yet in this round (planned: see DESIGN.md section 6); no check is registered, nothing is claimed"
